@@ -131,7 +131,8 @@ def cli_impl_trace(rc, out, outdir, existed_before, stale):
     """the canonical lines of one run of the real binary, as the driver prints them for cli_main"""
     lines = []
     if rc != 0:
-        lines.append(['status', 'ABORT'])
+        # CliThrow: the process ends abnormally and NOTHING is created (the run happens in a fresh directory)
+        lines.append(['status', 'ABORT'] + (['but-created', os.path.basename(outdir)] + sorted(os.listdir(outdir)) if os.path.exists(outdir) else []))
         return lines
     lines.append(['status', 'OK'])
     got = files.read_result_files(outdir)
